@@ -49,12 +49,18 @@ HillCore(c, law) ==    \* the value without the proportional factor d
     ELSE RDiv(law.k, RAdd(One, h))
 Prop(law, x) == IF law.type \in {"proportionalhillpositive", "proportionalhillnegative"} THEN x[law.d] ELSE One
 
-Defined(law, x, V) == law.type = "massaction" \/ (HillDefined(x[law.s1], law) /\ HillDefined(RDiv(x[law.s1], V), law))
+Defined(law, x, V) == law.type \in {"massaction", "affine"} \/ (HillDefined(x[law.s1], law) /\ HillDefined(RDiv(x[law.s1], V), law))
 
+\* "affine": a 'general' propensity whose rate string is  K + k*x[s1] - n*x[d]  (law.K, law.k, law.n rationals):
+\* an expression is evaluated as written in every mode (no species or volume scaling), and it may be NEGATIVE
+\* (e.g. a reversible reaction written as one reaction with rate kf*A - kr*B)
+Affine(law, x) == RAdd(law.K, RSub(RMul(law.k, x[law.s1]), RMul(law.n, x[law.d])))
 Det(law, x) == IF law.type = "massaction" THEN MassDet(law, x)
+               ELSE IF law.type = "affine" THEN Affine(law, x)
                ELSE RMul(Prop(law, x), HillCore(x[law.s1], law))
 Sto(law, x) == IF law.type = "massaction" THEN MassSto(law, x) ELSE Det(law, x)
 Vol(law, x, V) == IF law.type = "massaction" THEN VolScale(Order(law), MassDet(law, x), V)
+                  ELSE IF law.type = "affine" THEN Affine(law, x)
                   ELSE RMul(Prop(law, x), HillCore(RDiv(x[law.s1], V), law))
 StoVol(law, x, V) == IF law.type = "massaction" THEN VolScale(Order(law), MassSto(law, x), V)
                      ELSE Vol(law, x, V)
